@@ -25,7 +25,7 @@ EMPH = dict(p_rq=0.8, p_reply=0.03, p_writer=0.03, p_tick=0.02, rewrites=0.9, tt
             p_dup=0.03, p_allcodes=0.02, p_eap=0.03, min_steps=6, max_steps=16)
 _gw = WP.make_gen_run(ID, EMPH, 220, 5000)
 project = WP.make_project(ID)
-relevant_verdict = WP.make_relevant(ID)
+relevant_verdict = WP.make_relevant(ID, also=("C10:reply-to-an-earlier-request",))
 
 
 def gen_run(exe, rng, tier):
